@@ -148,6 +148,7 @@ var c03Ops = []string{
 	"issue_vc", "issue_vc", "issue_vc", "create_vp", "create_vp", "create_vp", "wallet_load",
 	"sign_jwt", "sign_jwt", "sign_jwt", "sign_jws", "sign_jws", "sign_jws", "sign_jws",
 	"inproc_sign_jws", "inproc_sign_jws", "inproc_sign_jws", "inproc_sign_jwt", "inproc_link", "inproc_link",
+	"inproc_jwk_zoo", "inproc_jwk_zoo", "lc_cycle", "lc_cycle", "lc_new", "lc_use", "lc_use", "lc_delete",
 	"encrypt_jwe", "encrypt_jwe", "decrypt_jwe", "decrypt_jwe",
 	"dpop_create", "dpop_create", "dpop_validate",
 	"token_flow", "introspect",
@@ -224,6 +225,7 @@ type c03State struct {
 	proofs   []c03Proof
 	tokens   []string
 	txRefs   []string
+	lc       []*c03LCSlot
 	seq      int
 }
 
@@ -761,6 +763,12 @@ func (s *c03State) step(st c03Step) {
 
 	case "inproc_link":
 		s.inprocLink(st)
+
+	case "inproc_jwk_zoo":
+		s.inprocJWKZoo(st)
+
+	case "lc_new", "lc_use", "lc_delete", "lc_cycle":
+		s.lifecycle(st)
 
 	case "encrypt_jwe":
 		var receiver string
